@@ -761,3 +761,41 @@ twin('C14', 'c14-twin-rearranged', TIMING,
      "        remaining_delay = last_time + period - time.now",
      "        remaining_delay = period - (time.now - last_time)",
      'same formula')
+
+# ------------------------------------------------------------------------- C16
+mutant('C16', 'c16-first-not-volatile', BASICS,
+       "                _first_monitor(activity, queue=results),\n                volatile=True,",
+       "                _first_monitor(activity, queue=results),",
+       'first:volatile', 'first() waits for the losers instead of aborting them')
+mutant('C16', 'c16-first-count-late', BASICS,
+       "    if count > len(activities):\n        raise ValueError(\n            f\"cannot provide {count} results from {len(activities)} activities\"\n        )\n    async with Scope() as scope:",
+       "    async with Scope() as scope:\n      if count > len(activities):\n        raise ValueError(\n            f\"cannot provide {count} results from {len(activities)} activities\"\n        )",
+       'first:count-checked', 'ValueError raised inside the scope')
+mutant('C16', 'c16-first-no-slice', BASICS,
+       "        async for winner in a.islice(results, count):",
+       "        async for winner in results:",
+       'first:fifo', 'never stops after count results')
+mutant('C16', 'c16-first-yield-outside', BASICS,
+       "        async for winner in a.islice(results, count):\n            yield winner",
+       "        winners = [winner async for winner in a.islice(results, count)]\n    for winner in winners:\n        yield winner",
+       'first:yield-inside-scope', 'results only after all count winners; rest not aborted on break')
+mutant('C16', 'c16-monitor-puts-task', BASICS,
+       "    result = await contestant\n    await queue.put(result)",
+       "    result = await contestant\n    await queue.put(contestant)",
+       'first _first_monitor', 'yields the activities instead of results')
+mutant('C16', 'c16-collect-reversed-results', BASICS,
+       "    return [await task for task in tasks]",
+       "    return [await task for task in reversed(tasks)]",
+       'collect:results-in-order', 'results in reverse order')
+mutant('C16', 'c16-collect-volatile', BASICS,
+       "        tasks = [scope.do(activity) for activity in activities]",
+       "        tasks = [scope.do(activity, volatile=True) for activity in activities]",
+       'collect', 'activities are aborted when the scope block ends')
+mutant('C16', 'c16-collect-results-inside', BASICS,
+       "        tasks = [scope.do(activity) for activity in activities]\n    return [await task for task in tasks]",
+       "        tasks = [scope.do(activity) for activity in activities]\n        return [await task for task in tasks]",
+       'collect:results-in-order', 'a failing activity is awaited inside the scope: raised directly instead of Concurrent')
+twin('C16', 'c16-twin-loop-form', BASICS,
+     "    return [await task for task in tasks]",
+     "    return [(await task) for task in tasks]",
+     'parenthesised await')
